@@ -429,4 +429,11 @@ def R6_swap_growth_handoff(run):
     run.check("R6", "reward-infos-updated", ok, "crossings do not use next_whirlpool_reward_infos(whirlpool, timestamp)", loc=sw.loc(), detail="reward infos := next_whirlpool_reward_infos(pool, timestamp)?")
 
 
-RULES = [R1_wrap_discipline, R2_flip_on_cross, R3_init_convention, R4_inside, R5_credit, R6_swap_growth_handoff]
+def R7_cross_checks(run):
+    run.title("R7", 'both packagings hand each growth to the parameter of the same side (C05.R2 argument-name instances)')
+    from rules.common import RuleProxy
+    from rules import C05
+    C05.R2_one_delta(RuleProxy(run, 'R7'))
+
+
+RULES = [R1_wrap_discipline, R2_flip_on_cross, R3_init_convention, R4_inside, R5_credit, R6_swap_growth_handoff, R7_cross_checks]
